@@ -7,8 +7,8 @@ CONSTANTS
   OccSet = {TRUE}
   BatchSet = {2}
   PathSet = {"async"}
-  MaxPauses = 1
-  Kinds = {"waive", "stale", "equal", "future", "neg"}
+  MaxPauses = 0
+  Kinds = {"waive", "equal", "future", "neg"}
   Pols = {"leader"}
   Mut = "none"
 INVARIANTS TypeOK C16_Dense C16_Once C16_StoredAtExpected C16_AckOffset C16_RejectNotStored C16_RejectJustified C16_WaivedAccepted C16_OneWinner C16_NoneNotSilent I_Resolved I_NonOccAll I_Order I_RejectWindow
